@@ -68,7 +68,7 @@ var logPrefixes = []string{
 // path generalisation of profile / name / target.
 var neutralDirs = []string{"/opt", "/srv/www", "/etc", "/var/cache/foo", "/media/disk", "/mnt/q", "/boot"}
 var neutralWords = []string{"foo", "Bar", "x-y_z", "lib_so_q", "data", "K", "zz9", "mm", "conf.d"}
-var hostileBits = []string{" ", "=", "#", ",", "é", "日本", " = ", "a b", "==", "#!", "\"", "\t", "'", ":", ";", "(", ")"}
+var hostileBits = []string{" ", "  ", "   ", "\\", "=", "#", ",", "é", "日本", " = ", "a b", "==", "#!", "\"", "\t", "'", ":", ";", "(", ")"}
 
 func genNeutralPath(t *rapid.T, label string, hostile bool) string {
 	p := pick(t, label+"dir", neutralDirs)
@@ -136,7 +136,7 @@ func genLogRecord(t *rapid.T, idx int) (LogRecord, map[string]string) {
 		fs = append(fs, fld{"fsuid", pick(t, "fsuid", []string{"0", "1001", "500"}), "bare"}, fld{"ouid", pick(t, "ouid", []string{"0", "1001", "500"}), "bare"})
 	}
 	if chance(t, "info", 3) {
-		fs = append(fs, fld{"info", pick(t, "infov", []string{"Failed name lookup - disconnected path", "no new privs", "a = b", "x # y", "optional: foo"}), "quoted"})
+		fs = append(fs, fld{"info", pick(t, "infov", []string{"Failed name lookup - disconnected path", "no new privs", "a = b", "x # y", "optional: foo", "two  spaces   here"}), "quoted"})
 		fs = append(fs, fld{"error", "-13", "bare"})
 	}
 	if chance(t, "target", 4) {
